@@ -1,4 +1,5 @@
 import SC.Proofs.SpecIndex
+import SC.Proofs.RIndex
 /-!
 # C01 — Index/Contains return exactly the leftmost case-insensitive match
 
@@ -61,5 +62,41 @@ theorem index_match_slice (s sub : Bytes) (i : Nat) (h : S.index s sub = (i : In
       simp only [fdec, List.length_map] at this
       rw [List.map_take]; exact this.symm
 
+/-! ### Layer 2 — refinement: the transliterated algorithm equals the specification
+
+`A.Index` is the function-by-function transliteration of `strcase.Index` / `bytcase.Index`: the dispatch
+(empty needle, one byte, one code point, needle at least as long as the haystack with its length
+pre-checks and `IndexRune` jump, the non-letter-ASCII fast path to the native `Index`, short haystack),
+`bruteForceIndexUnicode` (three variants), the skip loop (candidate sets from `ToUpperLower` +
+`FoldMapExcludingUpperLower` + the İ/ı special case, `indexRune`/`indexRune2`, the window bound `t`,
+`hasPrefixUnicode` with its `exhausted` flag, the `fails` cut-over) and `indexRabinKarpUnicode` (hash,
+`pow` by repeated squaring, rolling window, verification).  It is proved to return the leftmost match
+for **every** pair of byte strings — no validity, length or content hypothesis — in both packages
+and for both values of `NativeIndex`; the thresholds `maxLen`, `maxBruteForce` and `primeRK` are
+parameters (regenerated from the source), so the theorem does not depend on their values. -/
+
+theorem index_refines (cfg : A.Cfg) (s sub : Bytes) : A.Index cfg s sub = S.index s sub := A.Index_eq cfg s sub
+theorem contains_refines (cfg : A.Cfg) (s sub : Bytes) : A.Contains cfg s sub = S.contains s sub := A.Contains_eq cfg s sub
+
+/-- the individual strategies meet the same contract on their own (they are also compared with the real
+    unexported functions through the hooks) -/
+theorem bruteForce_leftmost (cfg : A.Cfg) (s sub : Bytes) (h2 : (decodeRune sub).2 < sub.length) :
+    IsIndex Fold.caseFold s sub (A.bruteForceIndexUnicode cfg s sub) := A.bruteForce_isIndex cfg s sub h2
+theorem rabinKarp_leftmost (cfg : A.Cfg) (s sub : Bytes) (h : sub ≠ []) :
+    IsIndex Fold.caseFold s sub (A.indexRabinKarpUnicode cfg s sub) := A.indexRabinKarpUnicode_isIndex cfg s sub h
+theorem skipLoop_leftmost (cfg : A.Cfg) (s sub : Bytes) (h2 : (decodeRune sub).2 < sub.length)
+    (hu0 : (decodeRune sub).1 ≠ 0xFFFD) : IsIndex Fold.caseFold s sub (A.indexSkip cfg s sub) :=
+  A.indexSkip_isIndex cfg s sub h2 hu0
+
+/-- the window bound of the skip loop and of the brute-force loop: with `t = min(len s, len s + 2 − n/3)` the
+    second rune of every match starts below `t` (with `+ 1`, the pinned tree's constant, this is false:
+    finding D1) -/
+theorem window_bound (s sub : Bytes) (f0 f1 : Nat) (fn : List Nat) (hsub : fdec Fold.caseFold sub = f0 :: f1 :: fn)
+    (i : Nat) (hi : IsBoundary s i) (hm : Match Fold.caseFold (s.drop i) sub) :
+    i + (decodeRune (s.drop i)).2 < min s.length (s.length + 2 - sub.length / 3) :=
+  A.window_bound' s sub f0 f1 fn hsub i hi hm
+
+example : A.Index {} [0x78, 0x78, 0x78, 0x78, 0x78, 0x78, 0x78, 0x78, 0x78, 0x78, 0x78, 0x78, 0x78, 0x78, 0x61, 0x6B, 0x6B] [0xE2, 0x84, 0xAA, 0xE2, 0x84, 0xAA] = 15 := by
+  rw [index_refines]; decide +kernel
 example : S.index [0x78, 0x6B, 0x4B] [0xE2, 0x84, 0xAA, 0x6B] = 1 := by decide +kernel
 end C01
